@@ -40,6 +40,7 @@ CTL_TRUST = [
 ]
 
 OPS_TRUST = [
+    "code-shaped, oracle-driven models of both operators (MutGen.lean, CrossGen.lean, KeySelect.lean: every random decision of mutation.rs / crossover.rs is an oracle field) are PROVED to refine the acceptors (C13_refine, C12_refine, C12_keys_refine), so the acceptors are not tighter than the algorithms they describe; the algorithm models themselves are hand-written from the source",
     "the acceptors mutAcc / crossAcc (Mutation.lean, Crossover.lean) are specifications of what the operators may produce, written by hand; the real mutation::mutate and Crossover::crossover are checked to refine them by correspondence K-ops (operation sequences on one shared PathContext, parameter corners 0 / (0,1) / 1, 1..8 parents)",
     "rand / rand_distr are outside the model: only the class of each probability (0, in between, 1) and 'a sample is some f64' are assumed; rescaling factors are the constant 1.0 outside cfg(test) (source lint L3)",
 ]
@@ -115,7 +116,7 @@ PROPS = {
     "C01": {
         "modules": ["CambrianModel.Props.C01"],
         "theorems": ["Cambrian.Props.C01_init", "Cambrian.Props.C01_guess", "Cambrian.Props.C01_cross",
-                     "Cambrian.Props.C01_mut", "Cambrian.Props.C01_run", "Cambrian.Props.C01_report", "Cambrian.Props.C01_accepted_wf"],
+                     "Cambrian.Props.C01_mut", "Cambrian.Props.C01_run", "Cambrian.Props.C01_report", "Cambrian.Props.C01_accepted_wf", "Cambrian.Props.C01_offspring_alg"],
         "correspondences": ["ops", "algo", "codec", "spec"],
         "trusted": OPS_TRUST + CODEC_TRUST + CTL_TRUST,
         "assumptions": ["map keys are machine usize values (keysBounded)", "float law FL-cast for the guess reader",
@@ -132,7 +133,7 @@ PROPS = {
     },
     "C12": {
         "modules": ["CambrianModel.Props.C12"],
-        "theorems": ["Cambrian.Props.C12_prov", "Cambrian.Props.C12_single", "Cambrian.Props.C12_same", "Cambrian.Props.C12_keys_refine"],
+        "theorems": ["Cambrian.Props.C12_prov", "Cambrian.Props.C12_single", "Cambrian.Props.C12_same", "Cambrian.Props.C12_keys_refine", "Cambrian.Props.C12_refine", "Cambrian.Props.C12_prov_alg", "Cambrian.Props.C12_same_alg"],
         "correspondences": ["ops"],
         "trusted": OPS_TRUST,
         "assumptions": ["float laws used: none", "parents conform to a well-formed spec"],
@@ -140,7 +141,7 @@ PROPS = {
     "C13": {
         "modules": ["CambrianModel.Props.C13"],
         "theorems": ["Cambrian.Props.C13_id", "Cambrian.Props.C13_step", "Cambrian.Props.C13_init_variant",
-                     "Cambrian.Props.C13_init_optional"],
+                     "Cambrian.Props.C13_init_optional", "Cambrian.Props.C13_refine", "Cambrian.Props.C13_id_alg", "Cambrian.Props.C13_step_alg"],
         "correspondences": ["ops"],
         "trusted": OPS_TRUST,
         "assumptions": ["float laws used: none", "the input conforms to a well-formed spec",
